@@ -69,7 +69,23 @@ static void a_ud(void* p, int a, uint8_t* msg, int start, int len) { (void) p; p
 static void a_to(void* p, int a) { (void) p; printf("timeout a=%d\n", a); }
 static struct sIPrimaryApplicationLayer appPri = { a_acd, a_ud, a_to };
 
-static void on_raw(void* p, uint8_t* msg, int size, bool sent) { (void) p; printf(sent ? "tx " : "rxmsg "); puthex(msg, size); printf("\n"); if (sent) txTotal += size; }
+/* (C10) `autostatus a=<addr>`: a scripted peer with that address answers every REQUEST STATUS OF LINK (and nothing else) with
+   STATUS OF LINK -- a slave that can be reached but never confirms the reset.  Not mirrored by the model driver. */
+static int auto_status_addr = -1;
+static void on_raw(void* p, uint8_t* msg, int size, bool sent)
+{
+    (void) p; printf(sent ? "tx " : "rxmsg "); puthex(msg, size); printf("\n"); if (sent) txTotal += size;
+    int al = llp.addressLength;
+    if (sent && auto_status_addr >= 0 && size == 4 + al && msg[0] == 0x10 && (msg[1] & 0x4f) == 0x49) {
+        int a = al == 0 ? 0 : (al == 1 ? msg[2] : msg[2] | (msg[3] << 8));
+        if (a == auto_status_addr) {
+            uint8_t r[8]; int n = 0; r[n++] = 0x10; r[n++] = 0x0b; int cs = 0x0b;
+            for (int i = 0; i < al; i++) { r[n] = msg[2 + i]; cs += r[n]; n++; }
+            r[n++] = (uint8_t) cs; r[n++] = 0x16;
+            Sim_serialFeed(port, r, n);
+        }
+    }
+}
 static void on_ls(void* p, int a, LinkLayerState s) { (void) p; printf("ls a=%d %d\n", a, (int) s); }
 
 static void destroy_all(void)
@@ -79,7 +95,7 @@ static void destroy_all(void)
     if (up) { LinkLayerPrimaryUnbalanced_destroy(up); up = NULL; }
     if (trx) { SerialTransceiverFT12_destroy(trx); trx = NULL; }
     if (port) { SerialPort_destroy(port); port = NULL; }
-    kind = K_NONE; n1 = n2 = 0; nslaves = 0; txTotal = 0;
+    kind = K_NONE; n1 = n2 = 0; nslaves = 0; txTotal = 0; auto_status_addr = -1;
 }
 
 static int kv(const char* line, const char* key, int dflt)
@@ -166,6 +182,7 @@ int main(void)
         a1[0] = 0; { char* sp = strrchr(line, ' '); if (sp) sscanf(sp + 1, "%4095s", a1); }
         if (!strcmp(cmd, "feed") || !strcmp(cmd, "rx")) { int n = unhex(a1, b); Sim_serialFeed(port, b, n); if (cmd[0] == 'r') run_once(); }
         else if (!strcmp(cmd, "run")) run_once();
+        else if (!strcmp(cmd, "autostatus")) auto_status_addr = kv(line, "a", -1);
         else if (!strcmp(cmd, "tick")) { Sim_advance((uint64_t) atoi(a1)); run_once(); }
         else if (!strcmp(cmd, "enq1")) { int n = unhex(a1, b); qpush(q1, &n1, b, n); }
         else if (!strcmp(cmd, "enq2")) { int n = unhex(a1, b); qpush(q2, &n2, b, n); }
